@@ -812,10 +812,17 @@ def _alignment(prog, rep):
     # argument as (0, None) for every variable, not as "free"
     for r_ in [x for x in walk_local(eb.node) if isinstance(x, ast.Return) and x.value is not None]:
         v_ = r_.value
+        cond_ = []
+        if isinstance(v_, ast.IfExp):      # return bounds if any_bounded else []
+            for alt_, pol_ in ((v_.body, True), (v_.orelse, False)):
+                if (isinstance(alt_, (ast.List, ast.Tuple)) and not alt_.elts) or (isinstance(alt_, ast.Constant) and alt_.value is None):
+                    cond_ = [(v_.test, pol_)]
+                    v_ = alt_
+                    break
         short = (isinstance(v_, (ast.List, ast.Tuple)) and not v_.elts) or (isinstance(v_, ast.Constant) and v_.value is None)
         if not short:
             continue
-        gs_ = dominating_guards(r_)
+        gs_ = list(dominating_guards(r_)) + cond_
         only_empty = gs_ and all(pol_ and src(t_).replace(" ", "") in (f"not{bparam}", f"len({bparam})==0") for t_, pol_ in gs_)
         if only_empty:
             continue
